@@ -1258,6 +1258,24 @@ type PageRule struct {
 	declarations []validation.Declaration
 }
 
+// importFetcher serves [imported] only once : a stylesheet importing itself,
+// directly or through the stylesheets it imports, is not fetched again.
+func importFetcher(fetcher utils.UrlFetcher, imported string) utils.UrlFetcher {
+	if fetcher == nil {
+		fetcher = utils.DefaultUrlFetcher
+	}
+	fetched := false
+	return func(url string) (utils.RemoteRessource, error) {
+		if url == imported {
+			if fetched {
+				return utils.RemoteRessource{}, fmt.Errorf("recursive @import of %s", url)
+			}
+			fetched = true
+		}
+		return fetcher(url)
+	}
+}
+
 // Do the work that can be done early on stylesheet, before they are
 // in a document.
 // ignoreImports = false
@@ -1330,7 +1348,7 @@ func preprocessStylesheet(deviceMediaType, baseUrl string, stylesheetRules []pa.
 				}
 				url = utils.UrlJoin(baseUrl, url, false, "@import")
 				if url != "" {
-					_, err := newCSS(utils.InputUrl(url), "", urlFetcher, false,
+					_, err := newCSS(utils.InputUrl(url), "", importFetcher(urlFetcher, url), false,
 						deviceMediaType, fontConfig, matcher, pageRules, counterStyle)
 					if err != nil {
 						logger.WarningLogger.Printf("Failed to load stylesheet at %s : %s \n", url, err)
